@@ -295,6 +295,50 @@ CLAIMED["C12"] = dict(
    technique="Coq proof (map / chunks / concat lemmas, axiom-free) + extracted-pipeline correspondence + row-vs-batch search",
    design="DESIGN.md section 4, C12")
 
+CLAIMED["C05"] = dict(
+   text="Coq theorems about the formulas regenerated from nflows/distributions: the Bernoulli log-mass sums to exactly one over "
+        "{0,1}^D for every D and every logits vector (induction on D, the per-coordinate identity sigmoid(l) + sigmoid(-l) = 1) "
+        "and its mean() is the expectation; the standard-normal log-density factorises over coordinates into "
+        "-x^2/2 - ln(2 pi)/2 for every event size, and the (conditional) diagonal normal is the affine push-forward "
+        "mean + exp(log_std) * z of the standard normal with exactly the log_std sum as correction; the one-dimensional factor "
+        "exp(-x^2/2)/sqrt(2 pi) has mass in [1 - 1e-9, 1] on [-8, 8] (Interval certificate). PARTIAL: the improper integral "
+        "over the whole line (hence 'integrates to one' for the normals, the mixture and the KDE), sampling laws and "
+        "MADEMoG are decided by quadrature / exact summation / fixed-seed moment search on the implementation only.",
+   note="Trusted: Coq kernel; Reals axioms; Interval's primitive-float specification axioms (PrimFloat/Uint63, named in the "
+        "evidence); translator; harness. Known finding: LotkaVolterraOscillating's normaliser. Fixed: DiagonalNormal.",
+   technique="Coq proof (Reals, Coquelicot, Interval) over regenerated formulas + quadrature/enumeration search",
+   design="DESIGN.md section 4, C05")
+
+CLAIMED["C04"] = dict(
+   text="Coq theorems over the list model of Flow._sample / sample_and_log_prob (merge of the per-row noise blocks, "
+        "repeat_rows of the context, row-wise inverse, split): for every number of context rows k, draws n and every "
+        "transform, sample [i][j] is the inverse of noise [i][j] under context row i (never another row's), for all k, n "
+        "(induction; axiom-free); the returned log-probability equals base log-density of the noise minus the inverse's "
+        "log-abs-det, which is log_prob of the returned sample when inverse and forward are mutually inverse with negated "
+        "log-dets (C02's statement as hypothesis); in one dimension, the push-forward of a base density through an "
+        "increasing differentiable bijection has the CDF whose derivative is exp(log_prob) (Coquelicot). PARTIAL: "
+        "'distributed according to' for random sampling itself (torch's generator) and multivariate push-forward are "
+        "not modelled: searched with recorded noise, a context-revealing flow and a fixed-seed KS comparison.",
+   note="Trusted: Coq kernel; Reals axioms for the density statements (the pairing theorems are closed); extraction; "
+        "harness. The noise drawn by the base distribution is recorded and replayed through the extracted model.",
+   technique="Coq proof (list induction; Coquelicot for the 1-D push-forward) + recorded-noise correspondence + search",
+   design="DESIGN.md section 4, C04")
+
+CLAIMED["C03"] = dict(
+   text="PARTIAL. Proved in Coq: log_prob as regenerated from Flow._log_prob is the base log-density at the transformed "
+        "point plus the log-abs-det; the one-dimensional substitution rule on any interval (the integral of "
+        "g'(x) phi(g(x)) over [a,b] is the base mass of [g a, g b], Coquelicot is_RInt_comp), so the flow's mass is the "
+        "base's mass of the image; rational-quadratic bins map their interval ONTO the target interval with pinned end "
+        "points and exp's inverse covers the positive reals. Not provable with the installed libraries and not claimed as "
+        "theorems: the multivariate change of variables, improper integrals, onto-ness of whole splines and networks. "
+        "Those are decided on the implementation by Gauss-Legendre quadrature (1-D and 2-D, four step sizes and two "
+        "domains per case, a case decides only when they agree) over ~100 programs (every onto-R atom, random "
+        "compositions, four bases, context rows, MaskedAutoregressiveFlow, SimpleRealNVP).",
+   note="Trusted: Coq kernel; Reals/Coquelicot axioms; translator; harness quadrature (unresolved cases are counted and "
+        "decide nothing). The theorem part alone does not establish the property for a given flow; the label is partial.",
+   technique="Coq proof (Coquelicot substitution rule, bin surjectivity) over regenerated formulas + quadrature search",
+   design="DESIGN.md section 4, C03")
+
 def main():
     checks = []
     for pid in ALL:
